@@ -158,6 +158,9 @@ def keep(seed, sid):
     for f in ("patch.diff", "demo.rs", "notes.md"):
         shutil.copy(os.path.join(seed, f), dst)
     meta = dict(id=sid)
+    desc_file = os.path.join(os.path.dirname(os.path.dirname(seed.rstrip("/"))), "descriptions.json")
+    if os.path.exists(desc_file):
+        meta.update(json.load(open(desc_file)).get(sid, {}))
     for f in ("verify.json", "checks.json"):
         p = os.path.join(seed, f)
         if os.path.exists(p):
@@ -168,7 +171,34 @@ def keep(seed, sid):
     return 0
 
 
+def table():
+    rows = []
+    base = os.path.join(VERIF, "seeded")
+    for sid in sorted(os.listdir(base)):
+        mp = os.path.join(base, sid, "meta.json")
+        if not os.path.exists(mp):
+            continue
+        m = json.load(open(mp))
+        caught = sorted(p for p, r in m.get("checks", {}).items() if r.get("exit") == 1)
+        missed = sorted(p for p, r in m.get("checks", {}).items() if r.get("exit") == 0)
+        rows.append((sid, m.get("property", "?"), m.get("change", ""), m.get("needs", ""), ", ".join(caught) or "-", ", ".join(missed) or "-"))
+    out = ["# Seeded property-breaking changes", "",
+           "Written by sub-agents that saw only the property text and a scratch worktree of /repo; each was confirmed by me",
+           "(`seedtool.py verify`: the demonstration fails with the change and passes without, the repository's own suite passes",
+           "three times with the change) and then run against the checks (`seedtool.py lane` / `run`). `meta.json` in each directory",
+           "has the details (what was run, first violation signatures). None of these changes is ever committed to /repo.", "",
+           "| id | property | change | needs in order to manifest | checks that raise a VIOLATION | checks run that stay silent (other properties) |",
+           "|---|---|---|---|---|---|"]
+    for r in rows:
+        out.append("| " + " | ".join(x.replace("|", "/") for x in r) + " |")
+    open(os.path.join(base, "README.md"), "w").write("\n".join(out) + "\n")
+    print("wrote seeded/README.md with %d rows" % len(rows))
+    return 0
+
+
 if __name__ == "__main__":
+    if sys.argv[1:] == ["table"]:
+        sys.exit(table())
     a = sys.argv[1:]
     if len(a) >= 2 and a[0] == "verify":
         sys.exit(verify(a[1]))
